@@ -242,6 +242,53 @@ pub fn run(ctx: &RunCtx) -> i32 {
             shared.merge(r);
         });
     }
+    // unknown attributes whose values collide under cheap digests: equal length and equal CRC-32 (difference = the CRC
+    // polynomial at a byte offset), equal byte sum / XOR (two bytes swapped), reversed, identical - two or three of them
+    // in one message, under equal and different types: each must keep exactly its own bytes
+    {
+        use crate::refs::codec::ref_encode;
+        const POLY: [u8; 5] = [0x41, 0x06, 0x71, 0xdb, 0x01];
+        let mut msgs = vec![];
+        for n in [5usize, 8, 12, 32, 33] {
+            let v: Vec<u8> = (0..n).map(|i| (i * 37 + 0x10) as u8).collect();
+            let mut variants: Vec<Vec<u8>> = vec![];
+            for off in [0, n - 5] {
+                let mut c = v.clone();
+                for k in 0..5 {
+                    c[off + k] ^= POLY[k];
+                }
+                variants.push(c);
+            }
+            let mut sw = v.clone();
+            sw.swap(0, n - 1);
+            variants.push(sw);
+            let mut rv = v.clone();
+            rv.reverse();
+            variants.push(rv);
+            variants.push(v.clone());
+            for w in variants {
+                for (t1, t2) in [(0x7F01u16, 0xFF02u16), (0x7F01, 0x7F01), (0xFF02, 0x7F01)] {
+                    for tail in [vec![], vec![L::Fp]] {
+                        let mut a = vec![L::Unknown(t1, Some(v.clone())), L::Unknown(t2, Some(w.clone()))];
+                        a.extend(tail.clone());
+                        msgs.push(crate::menu::lmsg(1, 0, [0x76; 12], a));
+                        let mut a = vec![L::Unknown(t1, Some(v.clone())), L::Software("between".into()), L::Unknown(t2, Some(w.clone())), L::Unknown(t1, Some(v.clone()))];
+                        a.extend(tail);
+                        msgs.push(crate::menu::lmsg(1, 0, [0x76; 12], a));
+                    }
+                }
+            }
+        }
+        msgs.par_chunks(16).for_each(|ch| {
+            let decs = super::c03::decoders(&key);
+            let mut r = Report::new();
+            for lm in ch {
+                relations(&ref_encode(lm, Some(&raw)), "colliding-unknown-values", &decs, &mut r);
+            }
+            r.sym("colliding-unknown-values");
+            shared.merge(r);
+        });
+    }
     let mut rep = shared.into_inner();
     rep.outcome("relations-hold");
     rep.outcome(format!("violations:{}", rep.violations.len()));
@@ -251,9 +298,9 @@ pub fn run(ctx: &RunCtx) -> i32 {
         rep,
         Finish {
             level: "exploration",
-            rule: format!("{} seeds (menu messages x tails, RFC 5769 vectors, messages with unknown comprehension-required / -optional attributes of 0..5 value bytes), every single-fault mutant of each (bit flips only for seeds <=80 bytes in the quick tier), and every {{O,MI,SHA,FP}} sequence up to length 5 (6 thorough) with all-correct and all-wrong checksum values; plus the offset family (three unknown-attribute bodies x three tails behind a filler at every 4-aligned body offset 0..=4200 (thorough 16,400), around multiples of 4096 (1024) and at every offset 65,300..=65,532); every seed also decoded through every construction route of every configuration (builder calls in every order, a repeated call, clones of the decoder and of the context, DecoderContext::default(), MessageDecoder::default()), which must agree with the canonical decoder; each byte string decoded under all 16 option combinations and without context, results compared pairwise against the five stated relations. Non-trivial = distinct byte string for which at least one not-ignore configuration decoded successfully", n_seeds),
+            rule: format!("{} seeds (menu messages x tails, RFC 5769 vectors, messages with unknown comprehension-required / -optional attributes of 0..5 value bytes), every single-fault mutant of each (bit flips only for seeds <=80 bytes in the quick tier), and every {{O,MI,SHA,FP}} sequence up to length 5 (6 thorough) with all-correct and all-wrong checksum values; plus the offset family (three unknown-attribute bodies x three tails behind a filler at every 4-aligned body offset 0..=4200 (thorough 16,400), around multiples of 4096 (1024) and at every offset 65,300..=65,532); messages with two or three unknown attributes whose values collide under cheap digests (equal length and CRC-32, swapped bytes, reversed, identical; equal and different types); every seed also decoded through every construction route of every configuration (builder calls in every order, a repeated call, clones of the decoder and of the context, DecoderContext::default(), MessageDecoder::default()), which must agree with the canonical decoder; each byte string decoded under all 16 option combinations and without context, results compared pairwise against the five stated relations. Non-trivial = distinct byte string for which at least one not-ignore configuration decoded successfully", n_seeds),
             assumptions: vec!["raw value bytes of unknown attributes are taken from the independent TLV reader".into()],
-            required_symbols: vec!["seeds", "kind-sequences", "offset-family", "decoder-construction-routes", "unknown-data-compared", "bit-flip", "attribute-move"],
+            required_symbols: vec!["seeds", "kind-sequences", "offset-family", "decoder-construction-routes", "colliding-unknown-values", "unknown-data-compared", "bit-flip", "attribute-move"],
             min_outcomes: 2,
             exhaustive: true,
             bounds: json!({"seeds": n_seeds}),
